@@ -211,7 +211,7 @@ class KeyInterp:
         """value of the loop variable for an iterable"""
         if it == G or it == NODES:
             return ATOM
-        if it == NBRS:
+        if it == NBRS or it.tag == "NBRS_PART":
             return NBR
         if it.tag == "Per":
             kind, w = it.a
@@ -449,6 +449,8 @@ class KeyInterp:
         # values of the neighbours, in listing order
         if it == NBRS and elt.tag == "Val" and elt.a[0] == "nbr":
             return Seq([("nbr", "listing")])
+        if it.tag == "NBRS_PART" and elt.tag == "Val" and elt.a[0] == "nbr":
+            return Seq([("nbr", "partial")])            # only some of the neighbours (which ones: by listing order)
         per_atom = it in (G, NODES) or it.tag in ("Per", "PerItems", "PerValues", "Zip", "Enum")
         if per_atom:
             if isinstance(e, ast.SetComp):
@@ -520,6 +522,8 @@ class KeyInterp:
                 return Per("dict", ("val", "own")) if args[1] == ATTR else Unk(q)
             if q in ("itertools.count", "count"):
                 return RANGE_U
+            if q.split(".")[-1] in ("islice", "takewhile", "dropwhile") and any(x == NBRS for x in args):
+                return KV("NBRS_PART")
             # a library / module function
             r = self.repo.resolve_dotted(fi.module, f) if isinstance(f.value, (ast.Name, ast.Attribute)) else None
             if r and r[0] == "func":
@@ -534,6 +538,8 @@ class KeyInterp:
                 return self.call(r[1], args)
             if r and r[0] == "ext" and r[1] in ("itertools.count",):
                 return RANGE_U
+            if r and r[0] == "ext" and r[1].split(".")[-1] in ("islice", "takewhile", "dropwhile") and any(x == NBRS for x in args):
+                return KV("NBRS_PART")
             a0 = args[0] if args else None
             if n in ("tuple", "list", "iter") and a0 is not None:
                 if a0.tag in ("Seq", "EmptyList"):
@@ -572,7 +578,7 @@ class KeyInterp:
                     segs = a0.a[0]
                     if any(s[0] == "own" for s in segs):
                         return Seq([("mixed-sorted",)])
-                    return Seq([("nbr", "sorted") if s[0] == "nbr" else s for s in segs])
+                    return Seq([("nbr", "sorted") if s[0] == "nbr" and s[1] != "partial" else s for s in segs])
                 if a0 == NBRS:
                     return NBRS
                 return Unk(f"sorted({a0})")
